@@ -251,13 +251,23 @@ func verifC01History() {
 	if verifThorough() {
 		steps = 3
 	}
+	state := verifState{}
+	// what was committed long ago (outside the crash window): nothing, or one level-1 table - so that
+	// a compaction of the history has a level-1 input to delete
+	if verifChoose("startWithLevel1", 2) == 1 {
+		n := vs.NextFileNumber()
+		rec := verifFileRec{1, n, 3, 200, 77}
+		el := NewEditLog(1)
+		el.Add(CreateNewFile(1, NewFileMeta(n, rec.min, rec.max, rec.size)))
+		verifAssert(vs.CommitFamilyEditLog("f", el) == nil, "setup commit returns")
+		state.files = append(state.files, rec)
+	}
 	// the crash point is chosen among the operations of the history (counted after the initial open)
 	opsAtStart := fs.ops
 	crash := verifChoose("crashBeforeOp", 2*steps+2) // -> ops opsAtStart+crash onwards are lost; the last value = no crash
 	if crash < 2*steps+1 {
 		fs.crashAt = opsAtStart + crash
 	}
-	state := verifState{}
 	var before, after verifState
 	inFlight := false
 	for i := 0; i < steps; i++ {
@@ -278,13 +288,28 @@ func verifC01History() {
 			state.files = append(state.files, rec)
 			state.seq, state.hasSeq = seq, true
 		} else {
-			// compaction install: the first level-0 file is replaced by one level-1 file
-			old := state.files[0]
+			// compaction install: the oldest level-0 file (the oldest file, if there is none) and the
+			// level-1 table are replaced by one level-1 file (inputs marked deleted at their levels)
+			pick := 0
+			for j, f := range state.files {
+				if f.level == 0 {
+					pick = j
+					break
+				}
+			}
+			old := state.files[pick]
 			n := vs.NextFileNumber()
 			rec := verifFileRec{1, n, old.min, old.max, old.size}
-			el.Add(NewDeleteFile(int32(old.level), old.number))
+			var rest []verifFileRec
+			for j, f := range state.files {
+				if j == pick || f.level == 1 {
+					el.Add(NewDeleteFile(int32(f.level), f.number))
+				} else {
+					rest = append(rest, f)
+				}
+			}
 			el.Add(CreateNewFile(1, NewFileMeta(n, rec.min, rec.max, rec.size)))
-			state.files = append(append([]verifFileRec{}, state.files[1:]...), rec)
+			state.files = append(rest, rec)
 		}
 		after = state.clone()
 		opsBefore := fs.ops
